@@ -25,8 +25,8 @@ RULE = ('Generated panels (2-6 geos quick / 2-7 thorough for both searches, 8-20
 ASSUMPTIONS = ['a search that raises is not judged here (C09 owns totality); such outcomes are counted',
                'admitted-set model is skipped when a share / budget / truncation comparison is within 1e-9 of flipping']
 EXHAUSTIVE = {'quick': False, 'thorough': False}
-MINIMA = {'quick': {'searches_after_query_result_edits': 60, 'shared_data_searches': 40, 'designs_checked': 300, 'admitted_checked': 150, 'distinct_nontrivial': 100, 'greedy_large': 10},
-          'thorough': {'searches_after_query_result_edits': 600, 'shared_data_searches': 400, 'designs_checked': 5000, 'admitted_checked': 2000, 'distinct_nontrivial': 1500, 'greedy_large': 100}}
+MINIMA = {'quick': {'variant_unicode_ids': 20, 'variant_empty_table': 8, 'searches_after_query_result_edits': 60, 'shared_data_searches': 40, 'designs_checked': 300, 'admitted_checked': 150, 'distinct_nontrivial': 100, 'greedy_large': 10},
+          'thorough': {'variant_unicode_ids': 200, 'variant_empty_table': 80, 'searches_after_query_result_edits': 600, 'shared_data_searches': 400, 'designs_checked': 5000, 'admitted_checked': 2000, 'distinct_nontrivial': 1500, 'greedy_large': 100}}
 N = {'quick': 360, 'thorough': 3000}
 N_LARGE = {'quick': 40, 'thorough': 240}
 CASE_TIMEOUT = {'quick': 300, 'thorough': 900}
@@ -81,8 +81,16 @@ def run_case(spec):
   else:
     G = r.randrange(2, 7 if tier == 'quick' else 8)
     focus = r.choice([None, None, 'ngeos', 'share', 'budget', 'size'])
-    case = sl.make_case(r, g, G, elig_mode=r.choice(['mixed', 'mixed', 'hostile', 'mostly_ctx', 'none']), focus=focus)
+    case = sl.make_case(r, g, G, elig_mode=r.choice(['mixed', 'mixed', 'hostile', 'mostly_ctx', 'none']), focus=focus,
+                        id_style=('unicode' if spec['idx'] % 10 == 5 else None))
   variant = None
+  if spec['kind'] == 'random' and spec['idx'] % 10 == 5:
+    variant = 'unicode_ids'
+  if spec['kind'] == 'random' and spec['idx'] % 20 == 6:
+    # an eligibility table without any row: no geo has a row, so no geo may be used
+    variant = 'empty_table'
+    case['elig_rows'] = {}
+    case['extra'] = {}
   if spec['kind'] == 'random' and case['elig_rows'] is not None and len(case['panel']['ids']) >= 3:
     ids_ = [str(i) for i in case['panel']['ids']]
     if spec['idx'] % 10 == 7:
